@@ -32,6 +32,21 @@ CHECKS = {
  "C12": ("5.12", "Compiled models from the generators (non-affine operators, named rows, tightened/infinite domains, coefficients 1e-9..1e9): Model::to_string() and LinearModel::to_string() must parse, type-check and re-compile to the same linear model; render/compile/render must be a fixpoint. Differences are classified as the recorded known finding only when an exact MILP oracle proves both models equivalent.",
          "Trusted: exact MILP oracle for the equivalence classification; comparison is modulo trivially-true constant rows, duplicate rows and declared-but-unused variables (stated reading, DESIGN.md section 10); restricted to models as the text front-end produces them.",
          "property-based testing: round trip (render then compile) + exact-oracle equivalence"),
+ "C13": ("5.13", "Generated continuous models converted to standard form (read through guarded accessors); exact rational oracle checks non-negative right-hand sides, forward and backward correspondence of feasible points with equal objective, equal verdict and optimum.",
+         "Trusted: exact LP oracle; the variable correspondence is by name (v, or $pv - $mv), no row/column layout is assumed.",
+         "property-based testing: generated models + exact rational feasibility correspondence"),
+ "C14": ("5.14", "Generated small models (degenerate vertices, ties, redundant rows, two-phase starts) and the classical cycling instances are stepped pivot by pivot; after every step the invariants (equivalent system, unit basis columns, non-negative basic solution satisfying the initial equalities, monotone objective, consistent current value) are checked, the stop verdict is compared with the exact optimum of the original model, the driver must stay within its limit.",
+         "Trusted: f64 invariant checks with 1e-6/1e-7 tolerances; stop verdicts are judged against the exact optimum of the original model (the canonical tableau carries f64 noise); covers the pivot sequences the implementation produces.",
+         "property-based testing: invariant checking over generated pivot histories + exact oracle at the stop"),
+ "C15": ("5.15", "Generated MILPs (small general ones and 15-28 item knapsacks) crossed with time limits, MIP gaps (valid and invalid) and deterministic node limits through the guarded hook, via the function and the builder: every returned solution must be feasible and self-consistent, Optimal only within the gap of the exact optimum (rational B&B / dynamic programming), invalid options rejected.",
+         "Trusted: exact optimum oracles; the oracle does not depend on where the clock stopped the search, so timing only affects which runs are interrupted.",
+         "property-based testing: generated models x option settings + exact optimum oracle + certificate check"),
+ "C17": ("5.17", "Generated linear models (all domain kinds, tiny/large/negative-zero numbers, offsets, named/unnamed rows incl. names equal to generated ones) exported with to_lp_format() and read back by an independent CPLEX-LP reader; everything is compared field by field with exact f64 equality.",
+         "Trusted: the harness's LP reader, written from the format description.",
+         "property-based testing: round trip through an independent LP-format reader"),
+ "C20": ("5.20", "Generated small LPs kept when the exact oracle certifies the optimal value differentiable in every right-hand side; Clarabel's shadow prices (function and builder doors) must equal the exact slopes obtained by re-solving with perturbed right-hand sides.",
+         "Trusted: exact LP oracle for the slopes; 1e-5 relative tolerance on the interior-point duals; degenerate cases are skipped and counted.",
+         "property-based testing: generated LPs + exact perturbation (metamorphic) oracle"),
  "C16": ("5.16", "One generated model realised through ModelBuilder (operators, helpers, permuted call order, unused variable), source text (constants inline / where / API), PipeRunner and RoocSolver: linear models identical, verdicts and optimal values equal, builder read-back (var_value, numeric_value, eval, value) equals the reference semantics; the constraint!/expr! macros are covered by a generated table of all 590 operator sequences of up to 3 operators compared with the reference parser.",
          "Trusted: reference evaluator and parser; macros are covered by enumeration at build time, not by run-time generation.",
          "property-based testing: differential between entry points + enumerated macro table"),
